@@ -198,7 +198,7 @@ class Loops:
             if isinstance(v, VRef) and (I.is_list(v) or I.is_dict(v)):
                 hint = None
                 if isinstance(p, ast.Name) and p.id in ann:
-                    hint = {'ListInt': 'int', 'ListByte': 'int', 'ListBytes': 'seq', 'ListObj': 'obj'}.get(ann[p.id].name)
+                    hint = {'ListInt': 'int', 'ListByte': 'int', 'ListBytes': 'seq', 'ListObj': 'obj', 'DictObjObj': 'objmap'}.get(ann[p.id].name)
                 I.havoc_ref(v, hint=hint)
             elif maybe:
                 continue
